@@ -198,7 +198,7 @@ def _check_specific_rule_ignore(line: str, rule_id: str) -> bool:
     space_match = re.search(r"ignore-file\s+([^\s#]+(?:\s+[^\s#]+)*)", line, re.IGNORECASE)
     if space_match:
         return check_space_separated_rules(space_match.group(1), rule_id)
-    return False
+    return check_general_ignore(line)  # bare "ignore-file" means all rules
 
 
 _BARE_IGNORE_PATTERN = re.compile(
@@ -252,6 +252,7 @@ class _BlockState:
 
     def __init__(self) -> None:
         self.in_block = False
+        self.start_line = 0
         self.rules: set[str] = set()
 
 
@@ -267,6 +268,7 @@ def _process_block_line(
     if has_ignore_start_marker(line):
         state.rules = _parse_ignore_start_rules(line)
         state.in_block = True
+        state.start_line = line_num
         return None
     if has_ignore_end_marker(line):
         return _handle_block_end(line_num, violation, state)
@@ -277,7 +279,7 @@ def _process_block_line(
 
 def _handle_block_end(line_num: int, violation: "Violation", state: _BlockState) -> bool | None:
     """Handle block end marker."""
-    if state.in_block and line_num > violation.line:
+    if state.in_block and state.start_line <= violation.line < line_num:
         if rules_match_violation(state.rules, violation.rule_id):
             return True
     state.in_block = False
